@@ -48,8 +48,11 @@ T_Prepared == /\ IsEvent("ld.prepared") /\ Running /\ lock = 0 /\ Keep
               /\ CanStart(Ev.f)
               /\ st' = [st EXCEPT ![Ev.f] = "prepared"]
               /\ UNCHANGED <<inst, errored, ents, sent, rep>>
+\* the rate limiter of the harness denied the rendered request (logged inside RateLimitPreFetch)
+T_Deny     == IsEvent("deny") /\ Running /\ Keep /\ Deny(Ev.f)
 T_Load     == /\ IsEvent("ld.load") /\ Running /\ Keep
-              /\ IF Ev.b = 1 THEN NoLoad(Ev.f) ELSE st[Ev.f] = "prepared" /\ UNCHANGED vars
+              /\ IF Ev.b = 1 THEN (IF st[Ev.f] = "denied" THEN UNCHANGED vars ELSE NoLoad(Ev.f))
+                 ELSE st[Ev.f] = "prepared" /\ UNCHANGED vars
 T_Req      == /\ IsEvent("req") /\ Running
               /\ Send(Ev.f, SetOf(Ev.ents))
               /\ same' = [same EXCEPT ![Ev.f] = Ev.same]
@@ -58,7 +61,7 @@ T_Loaded   == /\ IsEvent("ld.loaded") /\ Running /\ Keep
               /\ LoadEnd(Ev.f)
               /\ (Ev.b = 1) <=> (st'[Ev.f] = "loadedErr")
 T_Merging  == /\ IsEvent("ld.merging") /\ Running /\ lock = 0
-              /\ st[Ev.f] \in {"loaded", "loadedErr", "noload"}
+              /\ st[Ev.f] \in {"loaded", "loadedErr", "noload", "denied"}
               /\ lock' = Ev.f /\ cnt' = Ev.b
               /\ UNCHANGED <<vars, ph, same>>
 T_Merged   == /\ IsEvent("ld.merged") /\ Running /\ lock = Ev.f /\ Ev.b >= cnt
@@ -75,7 +78,7 @@ T_Repeat   == /\ IsEvent("repeat") /\ ph = "ended" /\ l > 1 /\ TraceLog[l - 1].e
               /\ UNCHANGED <<vars, ph, lock, cnt, same>>
 T_End      == IsEvent("end") /\ ph = "ended" /\ UNCHANGED <<vars, ph, lock, cnt, same>>
 
-TraceNext == T_Reset \/ T_Skipped \/ T_Prepared \/ T_Load \/ T_Req \/ T_Loaded \/ T_Merging \/ T_Merged
+TraceNext == T_Reset \/ T_Skipped \/ T_Prepared \/ T_Deny \/ T_Load \/ T_Req \/ T_Loaded \/ T_Merging \/ T_Merged
              \/ T_Response \/ T_Repeat \/ T_End
 TraceSpec == TraceInit /\ [][TraceNext]_tvars
 
@@ -93,13 +96,41 @@ ErrorsNonEmpty == Answered => (Failed # {} => resp.nerr >= 1)
 \* data: unaffected parts identical, affected parts null-propagated
 Isolated == (Answered /\ resp.hasdata = 1) => Deg(resp.a, resp.x)
 
+-----------------------------------------------------------------------------
+(* Subgraph error propagation (ResolverOptions.SubgraphErrorPropagationMode = PassThrough, RewriteSubgraphErrorPaths).    *)
+(* resp.mode: 0 = errors are wrapped (nothing to relate), 1 = pass-through, 2 = pass-through with rewritten paths.        *)
+(* resp.errs: one record per error the faulty subgraph answers carried:                                                   *)
+(*   found   an error with that message is in the client's errors                                                          *)
+(*   subhas / sub   the subgraph error has a path / that path (root alias of a MultiEntityFetch shown as "_entities")      *)
+(*   haspath / got  the client's error has a path / that path                                                              *)
+(*   ent     the subgraph path is rooted in an _entities array: <<"_entities", i>> \o rest                                 *)
+(*   known / item   the position, in the client's response, of the object the i-th representation was rendered from        *)
+(* paths are sequences of [t |-> "s" | "i", v |-> text]                                                                    *)
+Names(p) == SelectSeq(p, LAMBDA e : e.t = "s" /\ e.v # "@")
+\* the path of a subgraph error at entity index i maps to the response path of the i-th representation's position
+ClientPath(e) == IF e.ent = 1 THEN e.item \o e.rest ELSE e.sub
+Errs == IF Answered THEN resp.errs ELSE <<>>
+\* pass-through: every subgraph error reaches the client with its own path
+ErrPathsPass ==
+  (Answered /\ resp.mode = 1) =>
+     \A i \in DOMAIN Errs : LET e == Errs[i] IN e.found = 1 /\ e.haspath = e.subhas /\ (e.subhas = 1 => e.got = e.sub)
+\* rewritten: the client's path names the same fields as the position the error belongs to ...
+ErrPathsNames ==
+  (Answered /\ resp.mode = 2) =>
+     \A i \in DOMAIN Errs : LET e == Errs[i] IN
+        e.found = 1 /\ ((e.subhas = 1 /\ e.known = 1) => (e.haspath = 1 /\ Names(e.got) = Names(ClientPath(e))))
+\* ... and is that position exactly (a valid GraphQL error path: list indices included, no internal markers)
+ErrPathsExact ==
+  (Answered /\ resp.mode = 2) =>
+     \A i \in DOMAIN Errs : LET e == Errs[i] IN (e.subhas = 1 /\ e.known = 1 /\ e.haspath = 1) => e.got = ClientPath(e)
+
 \* after a failure the gateway is as good as new: the repetition arrives, reports nothing, sends exactly the
 \* fault-free requests and returns exactly the fault-free data
 RepeatClean ==
   (l > 2 /\ TraceLog[l - 1].ev = "repeat") =>
      LET r == TraceLog[l - 1] IN
        /\ r.arrived = 1 /\ r.valid = 1 /\ r.nerr = 0 /\ r.reqsame = 1
-       /\ Same(TraceLog[l - 2].a, r.x)
+       /\ Same(r.a, r.x)
 
 \* The invariants are evaluated in every state of every trace.  A false invariant is reported (with the line that
 \* was consumed last) and validation continues, so that one TLC pass judges every trace of the batch.
@@ -116,6 +147,10 @@ Judge ==
   /\ Check("ErrorsNonEmpty", ErrorsNonEmpty)
   /\ Check("Isolated", Isolated)
   /\ Check("RepeatClean", RepeatClean)
+  /\ Check("DeniedNotSent", DeniedNotSent)
+  /\ Check("ErrPathsPass", ErrPathsPass)
+  /\ Check("ErrPathsNames", ErrPathsNames)
+  /\ Check("ErrPathsExact", ErrPathsExact)
 HighWater == TLCSet(1, IF l > TLCGet(1) THEN l ELSE TLCGet(1)) /\ Judge
 TraceAccepted ==
   IF TLCGet(1) = Len(TraceLog) + 1 THEN TRUE
